@@ -325,6 +325,32 @@ def run_messages(sh, lab, n):
                         deco, "claiming" if ansi_stream else "without", got[:80]))
                 elif got.replace("\n", "").replace(p.replace("\n", ""), "") != "":
                     sh.violate("undecorated-output", dict(case, sections=True), "%s output: sections wrote %r, which is not made of the intended text %r" % (deco, got[:120], p))
+        if i % 5 == 0:
+            # the stream is replaced after the I/O was built: decoration follows the formatter when it is forced, else the
+            # claim of the stream now in place
+            for deco, first_claim, second_claim, want_decorated in (("forced", True, False, True), ("forced", False, False, True), ("ansi", True, False, False),
+                                                                      ("ansi", False, True, True), ("plain", False, True, False)):
+                io, _, _ = lab.io(deco, first_claim)
+                so2, se2 = lab.RecStream(second_claim), lab.RecStream(second_claim)
+                io.output.set_stream(so2)
+                io.error_output.set_stream(se2)
+                for st in (io.output, io.error_output):
+                    for k, v in extra.items():
+                        st.formatter.add_style(lab.style(k, *v))
+                io.write(m)
+                io.error_line(m)
+                got_o, got_e = so2.fetch(), se2.fetch()
+                sh.count("stream_replaced_writes")
+                if esc_in_style and want_decorated:
+                    continue  # the known third-party quirk concerns the decorated rendering of these messages
+                if strip_sgr(got_o) != p or strip_sgr(got_e) != p + "\n":
+                    sh.violate("same-text", dict(case, stream_replaced=True), "%s formatter after set_stream: wrote %r / %r, intended text %r" % (deco, got_o[:60], got_e[:60], p))
+                elif want_decorated and a != p and ("\x1b" not in got_o or "\x1b" not in got_e):
+                    sh.violate("sgr-codes", dict(case, stream_replaced=True), "%s formatter, stream replaced by one %s ANSI support: the styled message arrived without codes: %r" % (
+                        deco, "with" if second_claim else "without", got_o[:60]))
+                elif not want_decorated and ("\x1b" in got_o or "\x1b" in got_e):
+                    sh.violate("undecorated-output", dict(case, stream_replaced=True), "%s formatter, stream replaced by one %s ANSI support: escape bytes written: %r" % (
+                        deco, "with" if second_claim else "without", got_o[:60]))
         if i < 2:
             sh.sample(case)
     if kept < n // 3:
